@@ -247,7 +247,7 @@ class Element(ElementOfUnknownGroup):
     # negation and subtraction only make sense for the main subgroup
     def negate(self):
         # slow. Prefer e.scalarmult(-pw) to e.scalarmult(pw).negate()
-        return Element(scalarmult_element(self.XYTZ, L-2))
+        return Element(scalarmult_element(self.XYTZ, L-1))
     def subtract(self, other):
         return self.add(other.negate())
 
